@@ -13,6 +13,7 @@ CONSTANTS
     ReaderDone = TRUE
     AlertCloseOnErr = TRUE
     UdfStopAborts = FALSE
+    ForkHoldsRLock = TRUE
     NWaiters = 2
     WaitHoldsMu = TRUE
     HookNeedsTmLock = FALSE
